@@ -210,15 +210,34 @@ impl Prop for C12 {
         for lazy in [false, true] {
             let mode = if lazy { "lazy" } else { "strict" };
             // isolated reference per tree: a freshly loaded file, one execution
-            let mut reference = Vec::new();
-            for (i, t) in trees.iter().enumerate() {
-                let fresh = match load_transcript(&c.text) {
-                    Ok((f, _)) => f,
-                    Err(_) => return,
-                };
-                reference.push(exec_transcript(&fresh, t, &c.sources[i], &c.globals, &functions, lazy));
-                out.eval();
+            // (computed in a thread of its own, so that thread-local state of this long-running
+            // shard thread cannot leak into the reference)
+            let reference: Vec<String> = {
+                let text = c.text.clone();
+                let sources = c.sources.clone();
+                let globals = c.globals.clone();
+                std::thread::spawn(move || {
+                    let functions = stdlib();
+                    let mut v = Vec::new();
+                    for src in &sources {
+                        match load_transcript(&text) {
+                            Ok((fresh, _)) => {
+                                let t = parse_python(src);
+                                v.push(exec_transcript(&fresh, &t, src, &globals, &functions, lazy));
+                            }
+                            Err(e) => v.push(e),
+                        }
+                    }
+                    v
+                })
+                .join()
+                .unwrap_or_default()
+            };
+            if reference.len() != trees.len() {
+                out.inconclusive("harness: reference thread failed");
+                return;
             }
+            out.evals(trees.len() as u64);
             if reference.iter().any(|r| r.contains("GLOBALS-CHANGED")) {
                 out.violation(&format!("C12:caller-globals-changed:{}", mode), "the caller's variable set changed", cj());
                 return;
